@@ -52,6 +52,8 @@ CXX_TYPES = [
     (("std::vector<double>",), "std::vector", "must"),
     (("Cls",), "Cls", "must"),
     (("ns::Cls2",), "ns::Cls2", "must"),
+    (("Index",), "Index", "must"),
+    (("ns::Offset",), "ns::Offset", "must"),
 ]
 # C99 complex: both specifier orders name the same type (checked against the recorded typemap only: not C++ spellings)
 COMPLEX_TYPES = [
@@ -330,4 +332,7 @@ CXX_PRELUDE = """\
 #include <type_traits>
 struct Cls { int x; };
 namespace ns { struct Cls2 { int y; }; }
+typedef int Index;
+namespace ns { typedef long Offset; }
+struct Pt { int x; double y; };
 """
